@@ -324,6 +324,35 @@ pub fn refine_input(id: usize, dim: usize, count: usize, seed: u64) -> FInput {
     FInput { id, kind: "refine".into(), gens, anchor: DVec3::ZERO, width: DVec3::ONE, dim, per: false }
 }
 
+/// Long-gap revisits: an octagon of first neighbours (arriving in angular order), then `m` neighbours whose bisectors
+/// all refine ONE corner of it (they never touch the other sides), then one neighbour per remaining corner, again in
+/// angular order: each of the old sides is revisited after about m + 7 successful clips during which it was not
+/// touched.  Run for a window of m, every gap length around a power of two occurs (state kept across clips - counters,
+/// generation tags, cached cycle slots - must not go stale).
+pub fn sector_input(id: usize, dim: usize, m: usize, seed: u64) -> FInput {
+    let mut rng = StdRng::seed_from_u64(seed ^ 0x5EC7 ^ (m as u64));
+    let c = DVec3::new(0.5, 0.5, if dim == 3 { 0.5 } else { 0.0 });
+    let mut gens = vec![c];
+    let d0 = 0.3;
+    let at = |phi: f64, d: f64| c + d * DVec3::new(phi.cos(), phi.sin(), 0.0);
+    let step = std::f64::consts::TAU / 8.0;
+    for k in 0..8 {
+        gens.push(at(k as f64 * step, d0 * (1.0 - 1e-3) * (1.0 + 1e-6 * k as f64)));
+    }
+    for _ in 0..m {
+        let phi = rng.gen_range(0.04..0.96) * step;
+        gens.push(at(phi, d0 * (1.0 + 1e-7 * rng.gen_range(-1.0..1.0))));
+    }
+    for k in 1..8 {
+        gens.push(at((k as f64 + 0.5) * step, d0 * (1.0 + 2e-3) * (1.0 + 1e-6 * k as f64)));
+    }
+    if dim == 3 {
+        gens.push(c + DVec3::Z * 0.29);
+        gens.push(c - DVec3::Z * 0.29);
+    }
+    FInput { id, kind: "sector".into(), gens, anchor: DVec3::ZERO, width: DVec3::ONE, dim, per: false }
+}
+
 fn shift_code(shift: Option<DVec3>, width: DVec3) -> i64 {
     match shift {
         None => -1,
